@@ -40,6 +40,12 @@ var units = map[string]unit{
 		Imports:   []string{"AggkitModel.Model.GenPrelude"},
 		Custom:    syncFacts,
 	},
+	"InitialStatus": {
+		Files:     []string{"aggsender/statuschecker/initial_state.go", "agglayer/types/types.go"},
+		Namespace: "Aggkit.Gen.InitialStatus",
+		Imports:   []string{"AggkitModel.Model.GenPrelude"},
+		Custom:    initialStatusUnit,
+	},
 	"Schema": {
 		Files:     []string{"*/migrations/*.sql", "db/sqlite.go"},
 		Namespace: "Aggkit.Gen.Schema",
